@@ -15,4 +15,4 @@ class Date(internal.SingleValueRawTokenModel[datetime.date]):
 
     @classmethod
     def _format_value(cls, value: datetime.date) -> str:
-        return value.strftime('%Y-%m-%d')
+        return f'{value.year:04d}-{value.month:02d}-{value.day:02d}'  # %Y is not zero-padded on all platforms.
